@@ -76,11 +76,18 @@ def runInvs (fs : FS) : List String → List String
   | a :: rest =>
     let inv := parseArgs (if a == "-" then [] else a.splitOn " ") ()
     let (out, w) := push inv.cfg { fs := fs }
-    let r := s!"exit={out.exit};tree={renderTree w.fs};newino={newInodes fs w.fs};same={boolS (sameFS fs w.fs)};twin=ok;outside=ok"
+    -- the patch reported as failing ("Patch <name> FAILED"): the first one of the range that did not apply
+    let failed : String := match out, plan inv.cfg fs with
+      | .notAll, .apply range =>
+        (match applyLoop fs inv.cfg range 0 {} with
+         | .ok (_, k, _) => (match range[k]? with | some e => hexOf e.name | none => "-")
+         | .error _ => "-")
+      | _, _ => "-"
+    let r := s!"exit={out.exit};failed={failed};tree={renderTree w.fs};newino={newInodes fs w.fs};same={boolS (sameFS fs w.fs)};twin=ok;outside=ok"
     r :: runInvs w.fs rest
 
 /-- drop the `same=` field (full metadata equality incl. mtime: only meaningful for C10) -/
-def dropSame (r : String) : String := ";".intercalate ((r.splitOn ";").filter (fun x => !x.startsWith "same=" && !x.startsWith "sched=" && !x.startsWith "dev="))
+def dropSame (r : String) : String := ";".intercalate ((r.splitOn ";").filter (fun x => !x.startsWith "same=" && !x.startsWith "sched=" && !x.startsWith "dev=" && !x.startsWith "rexit=" && !x.startsWith "rfailed="))
 
 def fieldOf (r name : String) : String :=
   (((r.splitOn ";").find? (fun x => x.startsWith (name ++ "="))).map (fun x => (x.drop (name.length + 1)).toString)).getD ""
@@ -90,7 +97,10 @@ timestamp under the working directory as it was -/
 def c10 (invs impl : List String) : String :=
   let dry := (invs.zip impl).filter (fun (a, _) => (a.splitOn " ").contains "--dry-run")
   if dry.isEmpty then "na"
-  else if dry.all (fun (_, r) => fieldOf r "same" == "1") then "ok" else "FAIL:dry-run-changed-the-tree"
+  else if !dry.all (fun (_, r) => fieldOf r "same" == "1") then "FAIL:dry-run-changed-the-tree"
+  else if !dry.all (fun (_, r) => fieldOf r "exit" == fieldOf r "rexit") then "FAIL:exit-status-differs-from-real-run"
+  else if !dry.all (fun (_, r) => fieldOf r "failed" == fieldOf r "rfailed") then "FAIL:failing-patch-differs-from-real-run"
+  else "ok"
 
 /-- C15 on the implementation: hard-linked twins keep content and mode -/
 def c15 (impl : List String) : String :=
